@@ -13,7 +13,9 @@ What is trusted per rule (assumptions A-R10 / A-R11) is the std documentation of
     reference to the value in the entry;
   * removing a value and re-inserting the modified value under an equal key leaves the same abstract
     map as modifying it in place (only the allocation moment differs), cf. R14.
-The temporaries introduced by the rules end in `_` (`k_`, `v_`, `x_`); contracts and hints never mention them.
+The temporaries introduced by the rules end in `_` (`k_`, `v_`, `x_`, `r1_`); contracts and hints never mention
+them, with one documented exception: the accumulator `sum_` and the ghost iterator `it_` of the loops that R11S
+generates are the names the loop invariants of the unit must use.
 """
 import re
 
